@@ -79,8 +79,9 @@ class SpecFn:
 
 
 class Pred:
-    def __init__(self, name, params, clauses):
+    def __init__(self, name, params, clauses, opaque=False):
         self.name, self.params = name, params
+        self.opaque = opaque
         self.clauses = [(lab, ast.parse(e, mode="eval").body) for lab, e in clauses]
 
 
@@ -108,6 +109,7 @@ class Registry:
         self.proved_lemmas = []   # names of lemmas usable as schemas
         self.class_map = {}       # pyclass key -> objtype name
         self.iter_models = {}
+        self.spec_consts = {}
 
     # ---- declaration API (used by /verif/contracts/*.py)
     def objtype(self, name, **kw):
@@ -125,8 +127,8 @@ class Registry:
     def specfn(self, name, params, ret, body, **kw):
         self.specs[name] = SpecFn(name, params, ret, body, **kw)
 
-    def pred(self, name, params, clauses):
-        self.preds[name] = Pred(name, params, clauses)
+    def pred(self, name, params, clauses, opaque=False):
+        self.preds[name] = Pred(name, params, clauses, opaque)
 
     def lemma(self, name, params, requires, ensures, **kw):
         self.lemmas[name] = Lemma(name, params, requires, ensures, **kw)
@@ -156,6 +158,8 @@ class Registry:
             return Special("typedom", ty=self.type_names[name])
         if name in SPEC_BUILTINS:
             return Fun("special", handler=SPEC_BUILTINS[name])
+        if name in self.spec_consts:
+            return Conc(self.spec_consts[name])
         return None
 
     def ext_call(self, eng, name, args, kwargs, node):
@@ -228,6 +232,8 @@ class Registry:
 
     def list_extend(self, eng, ref, c, other):
         raise Unsupported("extend on symbolic list")
+
+    list_extend_hook = None
 
     def make_set(self, eng, items):
         h = self.ext.get("make_set")
@@ -337,7 +343,44 @@ def _sp_setadd(eng, args, kw, n):
     return P(args[0].ty, z3.Store(s, eng.term(args[1], args[0].ty.args[0]), True))
 
 
-SPEC_BUILTINS = {"implies": _sp_implies, "iff": _sp_iff, "dom": _sp_dom, "bit": _sp_bit, "pow2": _sp_pow2,
+def _sp_uf_pred(name, *sorts):
+    def h(eng, args, kw, n):
+        ts = []
+        for a, srt in zip(args, sorts):
+            ts.append(eng.term(a, srt))
+        f = uf(name, *[sort_of(s) for s in sorts], z3.BoolSort())
+        return P(BOOL, f(*ts))
+    return h
+
+
+def _sp_uf_fun(name, ret, *sorts):
+    def h(eng, args, kw, n):
+        ts = [eng.term(a, srt) for a, srt in zip(args, sorts)]
+        f = uf(name, *[sort_of(s) for s in sorts], sort_of(ret))
+        return P(ret, f(*ts))
+    return h
+
+
+def _sp_cat(eng, args, kw, n):
+    """cat(a, b): concatenation of two lists/sequences as a sequence value (None counts as empty)"""
+    parts = []
+    ty = None
+    for a in args:
+        if isinstance(a, NoneV) or (isinstance(a, Conc) and a.v is None):
+            continue
+        if isinstance(a, Conc) and isinstance(a.v, (list, tuple)):
+            a = lib.make_list(eng, [Conc(x) for x in a.v])
+        sq = lib.seq_of(eng, a)
+        if sq is None:
+            continue
+        ty = sq.ty
+        parts.append(sq.term)
+    if not parts:
+        raise Unsupported("cat of empty lists")
+    return P(ty, parts[0] if len(parts) == 1 else z3.Concat(*parts))
+
+
+SPEC_BUILTINS = {"cat": _sp_cat, "implies": _sp_implies, "iff": _sp_iff, "dom": _sp_dom, "bit": _sp_bit, "pow2": _sp_pow2,
                  "B": _sp_B, "V": _sp_V, "binfmt": _sp_binfmt, "sibling": _sp_sibling, "size": _sp_size,
                  "inv": _sp_inv, "setadd": _sp_setadd}
 
